@@ -254,3 +254,47 @@ PROPS["C12"]["assumptions"] = [a for a in PROPS["C12"]["assumptions"] if "lab ha
 PROPS["C14"]["stages"] = [rt_stage, labchecks.laws_stage]
 PROPS["C14"]["assumptions"] = [a for a in PROPS["C14"]["assumptions"]] + ["generated types of random definitions: lab half, all triples of 14-30 values per double-bearing type"]
 PROPS["C17"]["stages"] = [rt_stage, labchecks.errors_stage]
+
+
+def miri_stage(prop, tier, seed, replay):
+    """C01 thorough only: the same monitor interpreted by Miri (UB / invalid UTF-8 in the unsafe to_string path and the dependency unsafe reached through the
+    wrappers). ~0.6 s per oracle evaluation, so a few trees per process, 12 processes."""
+    import json, os, subprocess, time
+    from concurrent.futures import ThreadPoolExecutor
+    from vcheck import HARNESS, WORK, ENV, empty_report, merge, Inconclusive
+    rep = empty_report(prop)
+    if tier != "thorough" or replay:
+        return rep
+    env = dict(ENV)
+    env.update({"MIRIFLAGS": "-Zmiri-disable-isolation", "CARGO_TARGET_DIR": os.path.join(WORK, "target-miri")})
+    t = time.time()
+    b = subprocess.run(["cargo", "+nightly", "miri", "run", "--offline", "-q", "-p", "rt", "--", "C01", "--threads", "1", "--scale", "0.00001", "--out", os.path.join(WORK, "out", "miri-warm.json")],
+                       cwd=HARNESS, env=env, stdout=subprocess.PIPE, stderr=subprocess.STDOUT, text=True)
+    if b.returncode != 0 and "Undefined Behavior" not in b.stdout:
+        rep["notes"].append("miri stage skipped: cargo +nightly miri not usable here (%s)" % b.stdout[-200:].replace("\n", " "))
+        return rep
+    log("[miri] built/warmed in %.0fs" % (time.time() - t))
+    def one(k):
+        out = os.path.join(WORK, "out", "miri-%d.json" % k)
+        if os.path.exists(out):
+            os.remove(out)
+        r = subprocess.run(["cargo", "+nightly", "miri", "run", "--offline", "-q", "-p", "rt", "--", "C01", "--threads", "1", "--scale", "0.001", "--seed", str(seed * 1000 + k), "--out", out],
+                           cwd=HARNESS, env=env, stdout=subprocess.PIPE, stderr=subprocess.STDOUT, text=True, timeout=5400)
+        return k, r, out
+    with ThreadPoolExecutor(max_workers=12) as ex:
+        for k, r, out in ex.map(one, range(12)):
+            if "Undefined Behavior" in r.stdout or (r.returncode != 0 and "error:" in r.stdout):
+                tail = r.stdout[r.stdout.find("error"):][:1200]
+                rep["violations"].append({"sig": "miri:undefined-behaviour-or-abort", "sub": "miri", "case_seed": seed * 1000 + k, "detail": {"miri_output": tail}})
+            elif os.path.exists(out):
+                with open(out) as f:
+                    part = json.load(f)
+                part["floors"] = {}
+                part["samples"] = []
+                merge(rep, part)
+                rep["matrix"]["miri/evaluations"] = rep["matrix"].get("miri/evaluations", 0) + part["evaluations"]
+    rep["notes"].append("miri: %d oracle evaluations of the C01 monitor were also executed under cargo +nightly miri (12 processes)" % rep["matrix"].get("miri/evaluations", 0))
+    return rep
+
+
+PROPS["C01"]["stages"] = [rt_stage, miri_stage]
